@@ -124,7 +124,7 @@ func Load() (*World, error) {
 		return nil, &BindingError{Missing: missing}
 	}
 	for k, fc := range w.Contracts.ByKey {
-		if fc.Fn != nil {
+		if fc.Fn != nil && !fc.Flags["inline"] {
 			w.Cx.Contracts[fc.Fn.String()] = fc
 		}
 		_ = k
